@@ -29,6 +29,9 @@ def e2e(rule, quick_runs, thorough_runs, level="exploration", extra_assume=(), r
     return d
 
 
+BYZ_NOTE = ("the deciding power here is the byzantine peer's seeded generation; what the simulator adds is hang detection on the fake "
+            "clock, segmentation/timing of the hostile bytes and attribution of panics on the library's own goroutine")
+
 PROPS = {
     "C01": e2e(
         "each run = one seeded scenario (1-3 calls over one handler set and one client: protocol x codec x compression sets/thresholds x kind x "
@@ -89,4 +92,13 @@ PROPS = {
         "ServeHTTP, and whose k-th ResponseWriter.Write fails for every k (live E2E); the reference codec decides whether the terminator arrived "
         "within the delivered prefix; evaluations = exchanges, distinct = distinct (protocol, kind, bodies); 'deliveries' counts the faulted deliveries",
         800, 30000, level="fault_enumeration"),
+    "C06": e2e(
+        "each run = one client call (4 shapes x 3 protocols x 2 codecs) against a byzantine server behind HTTPClient.Do that answers with (i) a "
+        "conformant response from the reference encoder mutated 1-3 times (bit flips, truncation, appended bytes, status, deleted/duplicated/"
+        "swapped headers and trailers, flag bits, lying lengths, unknown encodings, abnormal end), (ii) grammar-aware adversarial fields "
+        "(Connect error / end-of-stream JSON without code, code_0, wrong types; grpc-status '', '00', '-1', huge, non-numeric; details-bin garbage "
+        "or Status code 0; lower-case keys in in-body blocks), or (iii) a random status/header/body/trailer tuple; delivery segmented and scheduled "
+        "by the tape; checked: termination on the fake clock, no panic, every error is a *connect.Error with non-zero code, HTTP-status mapping for "
+        "401/403/404/429/502/503/504, case-insensitive metadata lookup; distinct = distinct scheduler-log hash among runs with >= 2 candidates",
+        16000, 2000000),
 }
